@@ -450,6 +450,7 @@ pub struct State {
     buf_bytes: &'static [u8],
     pbuf: Result<proguard_pinned::ProguardCache<'static>, String>,
     uuid_buf: Vec<u8>,
+    nq: u64,
 }
 
 impl State {
@@ -464,6 +465,7 @@ impl State {
             buf_bytes: b"",
             pbuf: Err("ERR InvalidHeader".into()),
             uuid_buf: Vec::with_capacity(1 << 16),
+            nq: 0,
         }
     }
     fn written(&mut self) -> &'static [u8] {
@@ -493,6 +495,26 @@ impl State {
             Ok(c) => f(c),
             Err(_) => "noparse".to_string(),
         };
+        // every few queries: a long-lived handle (which has answered other queries before) must
+        // answer like a handle built just now for this one query
+        self.nq += 1;
+        if self.nq % 5 == 0 && mapping.len() <= 4096 {
+            let fresh_m = f(&cur::mapper(mapping, true));
+            let bytes = cur::write_cache(mapping);
+            let mut store: Vec<u64> = vec![0u64; (bytes.len() + 7) / 8 + 1];
+            let fresh_c = {
+                // 8-aligned local copy (not leaked)
+                let dst = unsafe { std::slice::from_raw_parts_mut(store.as_mut_ptr() as *mut u8, bytes.len()) };
+                dst.copy_from_slice(&bytes);
+                match ProguardCache::parse(dst) {
+                    Ok(fc) => f(&fc),
+                    Err(_) => "noparse".to_string(),
+                }
+            };
+            if fresh_m != b || fresh_c != c {
+                return format!("m0={} m1={} c={} STALE fresh-mapper={} fresh-cache={}", a, b, c, fresh_m, fresh_c);
+            }
+        }
         format!("m0={} m1={} c={}", a, b, c)
     }
     fn on_buf(&self, f: &dyn Fn(&dyn Remapper) -> String) -> String {
